@@ -63,6 +63,35 @@ def gen(chk, tier):
                   alias="none")
             if rng.random() < 0.3:
                 g.one("%s_pred" % field, "fiat.pred", field=field, a=b32(a), b=b32(rng.choice([a, b])))
+        # operands chosen by their INTERNAL (Montgomery-domain) limbs: the generated code adds / subtracts / multiplies
+        # raw limbs, so the carry- and borrow-critical patterns must sit there (raw = value * 2^256 mod m).  Pairs
+        # with equal low limbs, raw_a < raw_b, raw sums at 2^64k - 1, and critical patterns against each other.
+        Rm = T256 % m
+        Rinv_ = pow(Rm, -1, m)
+        raws = [v for v in critical_elements(rng, m, 60 if q else 300) if v < m]
+        rpairs = []
+        for _ in range(60 if q else 1500):
+            ra, rb_ = rng.choice(raws), rng.choice(raws)
+            rpairs.append((ra, rb_))
+        for _ in range(40 if q else 600):           # equal low limbs (1..3 of them), any order
+            j = rng.randrange(1, 4)
+            low = rng.choice([0, 1, (1 << (64 * j)) - 1, rng.getrandbits(64 * j)])
+            ra = ((rng.getrandbits(256 - 64 * j) << (64 * j)) | low) % m
+            rb_ = ((rng.getrandbits(256 - 64 * j) << (64 * j)) | low) % m
+            rpairs.append((ra, rb_))
+            # raw sums whose low limbs are all ones / exactly 2^64j
+            rc = (((1 << (64 * j)) - 1 - ra) % (1 << (64 * j))) | (rng.getrandbits(256 - 64 * j) << (64 * j))
+            rpairs.append((ra, rc % m))
+        rpairs += [(0, 1 << 64), (1 << 64, 0), (0, 1 << 128), (1 << 64, 1 << 128), (m - 1, 1), (1, m - 1), (0, m - 1)]
+        for (ra, rb_) in rpairs:
+            a, b = ra * Rinv_ % m, rb_ * Rinv_ % m
+            for fn in ("add", "sub", "mul"):
+                g.one("%s_%s_raw_limbs" % (field, fn), "fiat.op", field=field, fn=fn, a=b32(a), b=b32(b),
+                      alias=rng.choice(["none", "none", "ra", "rb"]) if a != b else "none")
+        for ra in raws[:40 if q else 300]:
+            a = ra * Rinv_ % m
+            for fn in ("square", "opp"):
+                g.one("%s_%s_raw_limbs" % (field, fn), "fiat.op", field=field, fn=fn, a=b32(a), alias="none")
         # operands constructed so that the MONTGOMERY-domain result is small (< 2^256 - m): the
         # accumulator before the final conditional subtraction is then either c or c + m, i.e. the
         # subtraction decision is at its boundary (about half of these take each side)
